@@ -5,6 +5,9 @@
 //! records the requests the mock received (decoded by the mock's own reader), the answers it
 //! sent, the columns the rows were encoded with, and what the caller decoded.
 //!
+//! Second case kind (Session::prepare):  P <exts bits> <stmt> <E/.. | F/..>*  |  Q/<node>@<resp>;.../<ok:<id>:<cols> | e:mismatch | e:allfailed>
+//!   the node events / forced answers happen BEFORE `Session::prepare`; recorded: every PREPARE answer and the result.
+//!
 //! Line format (all numbers hex):
 //!   H <ext> <nnodes> <nstmts> <stmt>* <op>*  |  <obs>*
 //!   stmt = S/<late>/<sid>/<mid>=<cols>,<mid>=<cols>,...
@@ -108,7 +111,8 @@ enum Op {
 }
 #[derive(Clone, Debug)]
 struct Case {
-    ext: bool,
+    /// per node: does it offer SCYLLA_USE_METADATA_ID
+    exts: Vec<bool>,
     nnodes: usize,
     stmts: Vec<Stmt>,
     ops: Vec<Op>,
@@ -263,7 +267,8 @@ fn dec_resp(s: &str) -> Resp {
 
 impl Case {
     fn line(&self) -> String {
-        let mut t = vec!["H".to_string(), (self.ext as u8).to_string(), format!("{:x}", self.nnodes), format!("{:x}", self.stmts.len())];
+        let e = if self.exts.iter().all(|x| *x == self.exts[0]) { (self.exts[0] as u8).to_string() } else { self.exts.iter().map(|x| if *x { '1' } else { '0' }).collect() };
+        let mut t = vec!["H".to_string(), e, format!("{:x}", self.nnodes), format!("{:x}", self.stmts.len())];
         for s in &self.stmts {
             let vs: Vec<String> = s.vers.iter().map(|v| format!("{}={}", hex_bytes(&v.mid), enc_cols(&v.cols))).collect();
             t.push(format!("S/{}/{}/{}", s.late as u8, hex_bytes(&s.sid), vs.join(",")));
@@ -310,8 +315,11 @@ impl Case {
         if f.len() < 4 || f[0] != "H" {
             return None;
         }
-        let ext = f[1] == "1";
         let nnodes = usize::from_str_radix(f[2], 16).ok()?;
+        let exts: Vec<bool> = if f[1].len() == 1 { vec![f[1] == "1"; nnodes] } else { f[1].chars().map(|c| c == '1').collect() };
+        if exts.len() != nnodes {
+            return None;
+        }
         let ns = usize::from_str_radix(f[3], 16).ok()?;
         let mut stmts = vec![];
         for tok in &f[4..4 + ns] {
@@ -379,7 +387,7 @@ impl Case {
                 _ => return None,
             });
         }
-        Some(Case { ext, nnodes, stmts, ops })
+        Some(Case { exts, nnodes, stmts, ops })
     }
 }
 
@@ -392,7 +400,7 @@ struct NodeSt {
     salt: Vec<u64>,
 }
 struct Srv {
-    ext: bool,
+    exts: Vec<bool>,
     stmts: Vec<Stmt>,
     texts: Vec<String>,
     nodes: Vec<NodeSt>,
@@ -458,7 +466,7 @@ impl Srv {
                         n.prep[s] = n.salt[s] == 0;
                         let st = &self.stmts[s];
                         let cols = if st.late { vec![] } else { st.vers[v].cols.clone() };
-                        Resp::Prepared { id: sid_salted(&st.sid, n.salt[s]), mid: if self.ext { Some(st.vers[v].mid.clone()) } else { None }, cols }
+                        Resp::Prepared { id: sid_salted(&st.sid, n.salt[s]), mid: if self.exts[node] { Some(st.vers[v].mid.clone()) } else { None }, cols }
                     }
                 }
             }
@@ -477,7 +485,7 @@ impl Srv {
                 let p = ctx.params.as_ref().unwrap();
                 let skip = p.skip_metadata;
                 let paged = p.page_size.is_some();
-                let meta = if self.ext {
+                let meta = if self.exts[node] {
                     match &ctx.result_metadata_id {
                         Some(i) if *i == mid => {
                             if skip { RMeta::None(cols.len() as u32) } else { RMeta::Full(cols.clone()) }
@@ -805,7 +813,10 @@ async fn run_case(c: Case) -> String {
     let mut spec = ClusterSpec::uniform("c14", &[("dc1", c.nnodes)], 1, 4, 0).with_keyspace(KeyspaceDef::simple("ks", 1));
     spec.options.tablets_ext = false;
     spec.options.shard_aware_port = None;
-    spec.options.metadata_id_ext = c.ext;
+    spec.options.metadata_id_ext = false;
+    for (i, e) in c.exts.iter().enumerate() {
+        spec.nodes[i].metadata_id_ext = Some(*e);
+    }
     let cluster = match MockCluster::start(spec).await {
         Ok(cl) => cl,
         Err(e) => return format!("error start-cluster {}", e),
@@ -813,7 +824,7 @@ async fn run_case(c: Case) -> String {
     let ns = c.stmts.len();
     let texts: Vec<String> = (0..ns).map(stmt_text).collect();
     let srv = Arc::new(Mutex::new(Srv {
-        ext: c.ext,
+        exts: c.exts.clone(),
         stmts: c.stmts.clone(),
         texts: texts.clone(),
         nodes: (0..c.nnodes).map(|_| NodeSt { prep: vec![false; ns], ver: vec![0; ns], salt: vec![0; ns] }).collect(),
@@ -846,7 +857,7 @@ async fn run_case(c: Case) -> String {
             if s.logging {
                 s.log.push((ctx.node, req, resp.clone()));
             }
-            let mut acts = actions_of(&resp, s.ext);
+            let mut acts = actions_of(&resp, s.exts[ctx.node]);
             if s.logging && s.delay[ctx.node] > 0 {
                 acts.insert(0, Action::Delay(s.delay[ctx.node]));
             }
@@ -1072,15 +1083,15 @@ async fn run_case(c: Case) -> String {
 /// mock's frame trace since the last drain.
 fn user_frames(cluster: &MockCluster, srv: &Arc<Mutex<Srv>>) -> usize {
     let trace = cluster.drain_trace();
-    let (ext, sids) = {
+    let (exts, sids) = {
         let g = srv.lock().unwrap();
-        (g.ext, g.stmts.iter().map(|s| s.sid.clone()).collect::<Vec<_>>())
+        (g.exts.clone(), g.stmts.iter().map(|s| s.sid.clone()).collect::<Vec<_>>())
     };
     trace
         .iter()
         .filter(|e| match &e.ev {
             Ev::In { opcode, body, .. } => match *opcode {
-                op::EXECUTE => wire::decode_execute(body, ext).map(|x| sids.iter().any(|s| x.id.starts_with(s))).unwrap_or(true),
+                op::EXECUTE => wire::decode_execute(body, exts[e.node]).map(|x| sids.iter().any(|s| x.id.starts_with(s))).unwrap_or(true),
                 op::BATCH => true,
                 op::PREPARE => wire::decode_prepare(body).map(|t| t.starts_with("SELECT * FROM ks.t")).unwrap_or(false),
                 _ => false,
@@ -1174,6 +1185,141 @@ fn finish_pages(cluster: &MockCluster, srv: &Arc<Mutex<Srv>>, node: usize, rows:
 }
 
 // ------------------------------------------------------------------------------------------
+// case kind P: Session::prepare against nodes in different states
+// ------------------------------------------------------------------------------------------
+async fn run_prepare_case(line: String) -> String {
+    let f: Vec<&str> = line.split_whitespace().collect();
+    if f.len() < 3 {
+        return "error malformed-case".into();
+    }
+    let exts: Vec<bool> = f[1].chars().map(|c| c == '1').collect();
+    let nnodes = exts.len();
+    // reuse the H parser for the statement and the ops
+    let fake = format!("H {} {:x} 1 {}", f[1], nnodes, f[2..].join(" "));
+    let Some(c) = Case::parse(&fake.replace(&format!("H {} ", f[1]), &format!("H {} ", if nnodes == 1 { f[1].to_string() } else { f[1].to_string() }))) else {
+        return "error malformed-case".into();
+    };
+    let mut spec = ClusterSpec::uniform("c14p", &[("dc1", nnodes)], 1, 4, 0).with_keyspace(KeyspaceDef::simple("ks", 1));
+    spec.options.tablets_ext = false;
+    spec.options.shard_aware_port = None;
+    spec.options.metadata_id_ext = false;
+    for (i, e) in exts.iter().enumerate() {
+        spec.nodes[i].metadata_id_ext = Some(*e);
+    }
+    let cluster = match MockCluster::start(spec).await {
+        Ok(cl) => cl,
+        Err(e) => return format!("error start-cluster {}", e),
+    };
+    let text = stmt_text(0);
+    let srv = Arc::new(Mutex::new(Srv {
+        exts: exts.clone(),
+        stmts: c.stmts.clone(),
+        texts: vec![text.clone()],
+        nodes: (0..nnodes).map(|_| NodeSt { prep: vec![false], ver: vec![0], salt: vec![0] }).collect(),
+        forced: (0..nnodes).map(|_| VecDeque::new()).collect(),
+        logging: true,
+        log: vec![],
+        pseed: 0,
+        pcount: 0,
+        haspg: false,
+        pages_left: 0,
+        min_rows: 0,
+        delay: vec![0; nnodes],
+    }));
+    for o in &c.ops {
+        match o {
+            Op::E { node, kind, s, arg } => srv.lock().unwrap().event(*node, *kind, *s, *arg),
+            Op::F { node, resp } => srv.lock().unwrap().forced[*node].push_back(resp.clone()),
+            _ => return "error malformed-case P takes only E and F ops".into(),
+        }
+    }
+    {
+        let srv = srv.clone();
+        cluster.set_handler(Some(Arc::new(move |ctx: &ReqCtx| -> Option<Vec<Action>> {
+            if ctx.is_system || ctx.opcode != op::PREPARE {
+                return None;
+            }
+            let mut s = srv.lock().unwrap();
+            let req = enc_request(ctx, &s)?;
+            let resp = match s.forced[ctx.node].pop_front() {
+                Some(r) => r,
+                None => s.answer(ctx.node, ctx),
+            };
+            s.log.push((ctx.node, req, resp.clone()));
+            Some(actions_of(&resp, s.exts[ctx.node]))
+        })));
+    }
+    let session: Session = match tokio::time::timeout(
+        Duration::from_secs(20),
+        SessionBuilder::new().known_node_addr(cluster.contact_point(0)).local_ip_address(Some(cluster.client_ip())).connection_timeout(Duration::from_secs(5)).build(),
+    )
+    .await
+    {
+        Ok(Ok(s)) => s,
+        Ok(Err(e)) => return format!("error session {:?}", e),
+        Err(_) => return "error session-timeout".into(),
+    };
+    let t = Instant::now();
+    while cluster.connections(None).len() < nnodes + 1 && t.elapsed() < Duration::from_secs(10) {
+        tokio::time::sleep(Duration::from_millis(2)).await;
+    }
+    let res = session.prepare(text.as_str()).await;
+    let out = match &res {
+        Ok(p) => {
+            let g = p.get_current_result_set_col_specs();
+            let cols: Vec<Col> = g.get().iter().map(|c| col_of_spec(c.name(), c.typ())).collect();
+            format!("ok:{}:{}", hex_bytes(p.get_id()), enc_cols(&cols))
+        }
+        Err(scylla::errors::PrepareError::PreparedStatementIdsMismatch) => "e:mismatch".into(),
+        Err(scylla::errors::PrepareError::AllAttemptsFailed { .. }) => "e:allfailed".into(),
+        Err(e) => format!("e:exec:{}", format!("{:?}", e).split(|c: char| !c.is_alphanumeric()).next().unwrap_or("x")),
+    };
+    let log: Vec<(usize, String, Resp)> = std::mem::take(&mut srv.lock().unwrap().log);
+    cluster.shutdown();
+    drop(session);
+    if log.len() != nnodes && log.len() != 2 * nnodes {
+        // a pool was not connected yet: not the scenario of the case (2 x nnodes = the second round of
+        // prepare_nongeneric after a failed first one)
+        return format!("error session prepare reached {} of {} nodes", log.len(), nnodes);
+    }
+    let xs: Vec<String> = log.iter().map(|(n, _, r)| format!("{:x}@{}", n, enc_resp(r))).collect();
+    format!("Q/{}/{}", xs.join(";"), out)
+}
+fn gen_prepare_case(r: &mut Rng) -> String {
+    let nnodes = 1 + r.below(3) as usize;
+    let exts: String = (0..nnodes).map(|_| if r.bool() { '1' } else { '0' }).collect();
+    let c = gen_case(r);
+    let st = &c.stmts[0];
+    let vs: Vec<String> = st.vers.iter().map(|v| format!("{}={}", hex_bytes(&v.mid), enc_cols(&v.cols))).collect();
+    let mut t = vec!["P".to_string(), exts.clone(), format!("S/{}/{}/{}", st.late as u8, hex_bytes(&st.sid), vs.join(","))];
+    if r.chance(1, 10) {
+        // nobody prepares it, in both rounds
+        for node in 0..nnodes {
+            t.push(format!("F/{:x}/d:2200", node));
+            t.push(format!("F/{:x}/d:2000", node));
+        }
+        return t.join(" ");
+    }
+    for node in 0..nnodes {
+        if r.chance(1, 2) {
+            t.push(format!("E/{:x}/s/0/{:x}", node, r.below(st.vers.len() as u64)));
+        }
+        if r.chance(1, 6) {
+            t.push(format!("E/{:x}/i/0/{:x}", node, 1 + r.below(2)));
+        }
+        if r.chance(1, 5) {
+            let resp = match r.below(3) {
+                0 => Resp::DbErr(0x2200),
+                1 => Resp::Void,
+                _ => Resp::DbErr(0x2000),
+            };
+            t.push(format!("F/{:x}/{}", node, enc_resp(&resp)));
+        }
+    }
+    t.join(" ")
+}
+
+// ------------------------------------------------------------------------------------------
 // generators
 // ------------------------------------------------------------------------------------------
 fn rb0(r: &mut Rng, m: u64) -> Vec<u8> {
@@ -1231,10 +1377,17 @@ fn mid_for(cols: &[Col], taken: &[(Vec<u8>, Vec<Col>)]) -> Vec<u8> {
     d
 }
 fn gen_case(r: &mut Rng) -> Case {
-    let ext = r.bool();
     let nnodes = 1 + r.below(3) as usize;
+    let mut exts = vec![r.bool(); nnodes];
+    // mixed-version cluster: some nodes offer the metadata-id extension, some do not
+    if nnodes >= 2 && r.chance(1, 5) {
+        let k = r.below(nnodes as u64) as usize;
+        exts[k] = !exts[k];
+    }
+    let ext = exts.iter().all(|x| *x);
+    let mixed = exts.iter().any(|x| *x != exts[0]);
     let ns = if r.chance(1, 6) { 3 } else { 1 + r.below(2) as usize };
-    let generic = r.chance(1, 4);
+    let generic = !mixed && r.chance(1, 4);
     let mut stmts = vec![];
     for s in 0..ns {
         let nonselect = r.chance(1, 10);
@@ -1341,7 +1494,7 @@ fn gen_case(r: &mut Rng) -> Case {
             }
         }
     }
-    Case { ext, nnodes, stmts, ops }
+    Case { exts, nnodes, stmts, ops }
 }
 /// an arbitrary (possibly ill-behaved) answer for the generic system
 fn gen_forced(r: &mut Rng, ext: bool, stmts: &[Stmt], s: usize) -> Resp {
@@ -1372,24 +1525,31 @@ fn gen_forced(r: &mut Rng, ext: bool, stmts: &[Stmt], s: usize) -> Resp {
 fn main() {
     let args = parse_args();
     quiet_panics();
-    let cases: Vec<Case> = match &args.replay {
-        Some(p) => read_cases(p).iter().filter_map(|l| Case::parse(l)).collect(),
+    let lines: Vec<String> = match &args.replay {
+        Some(p) => read_cases(p),
         None => {
             let mut r = Rng::new(args.seed);
-            (0..args.n).map(|_| gen_case(&mut r)).collect()
+            (0..args.n).map(|_| if r.chance(1, 12) { gen_prepare_case(&mut r) } else { gen_case(&mut r).line() }).collect()
         }
     };
     let par: usize = std::env::var("C14_PAR").ok().and_then(|s| s.parse().ok()).unwrap_or(6);
     let rt = tokio::runtime::Builder::new_multi_thread().worker_threads(6).enable_all().build().unwrap();
     let results: Vec<(String, String)> = rt.block_on(async move {
         use futures::stream::{self, StreamExt};
-        stream::iter(cases.into_iter().map(|c| async move {
-            let line = c.line();
+        stream::iter(lines.into_iter().map(|line| async move {
             let mut out = String::new();
             // a loaded machine can make session creation or a request time out: that says nothing
             // about the property; the history is re-run from scratch (fresh cluster and session)
             for attempt in 0..8u64 {
-                let h = tokio::spawn(run_case(c.clone()));
+                let l2 = line.clone();
+                let h = if line.starts_with("P ") {
+                    tokio::spawn(run_prepare_case(l2))
+                } else {
+                    match Case::parse(&l2) {
+                        Some(c) => tokio::spawn(run_case(c)),
+                        None => tokio::spawn(async { "error malformed-case".to_string() }),
+                    }
+                };
                 out = match h.await {
                     Ok(o) => o,
                     Err(e) => format!("error panic {}", e),
